@@ -12,8 +12,8 @@ from mc.runner import Acc, jsonable
 ID = 'C07'
 LEVEL = 'model_checking'
 RULE = ('all ordered pairs of workloads {iterative (3,1e-9), iterative (50,0.1), array 2x2, array 3x1, plain chain, '
-        'set_value+evaluate, trim_graph, from_file of a cycles model} on two real threads (each building its own '
-        'compiler on that thread) x {never-used threads, warmed-up threads} x every schedule with <= 2 preemptions at '
+        'set_value+evaluate, trim_graph, from_file of a cycles model, a failed iterative evaluation followed by a healthy one} on two real threads (each building its own '
+        'compiler on that thread) x {never-used threads, warmed-up threads, threads started in a copied contextvars context} x every schedule with <= 2 preemptions at '
         'cell-evaluation points (entry of _evaluate/_evaluate_range; thorough: also every method of the two thread-local '
         'singletons, and <= 3 preemptions at the coarse points). Each thread\'s results and pass log must equal those of '
         'the workload run alone. distinct_nontrivial = schedules with at least one effective preemption.')
@@ -44,6 +44,22 @@ def w_iter(base, count, delta):
         m = W.compile_inmem(spec, cycles=True, plugins='mc.plugins')
         r = [tagged(m.evaluate('S!A1')), tagged(m.evaluate('S!A2'))]
         return r + log_for({i1, i2})
+    return fn
+
+
+def w_failiter(base):
+    """an iterative evaluation that fails half way (unknown function), handled by the caller, followed on the same
+    thread by a healthy iterative workload; its reference is the healthy workload alone"""
+    healthy = w_iter(base, 3, 1e-9)
+
+    def fn():
+        bad = S({'B1': 1, 'A1': '=0.5*A2+B1', 'A2': '=NOSUCHFN(A1)+1'}, calc={'iterate': True, 'count': 5, 'delta': 1e-9})
+        m = W.compile_inmem(bad, cycles=True)
+        try:
+            m.evaluate('S!A1')
+        except Exception:
+            pass
+        return healthy()
     return fn
 
 
@@ -108,13 +124,15 @@ def warm_up():
     m.evaluate('S!D1:E1')
 
 
-WORKLOADS = ['iterA', 'iterB', 'arr22', 'arr31', 'plain', 'set', 'trim', 'load']
+WORKLOADS = ['iterA', 'iterB', 'arr22', 'arr31', 'plain', 'set', 'trim', 'load', 'failiter']
+REF_OF = {'failiter': 'iterA'}
 
 
 def make(name, base, path):
     return {'iterA': lambda: w_iter(base, 3, 1e-9), 'iterB': lambda: w_iter(base, 50, 0.1),
             'arr22': lambda: w_arr22(base), 'arr31': lambda: w_arr31(base), 'plain': lambda: w_plain(base),
-            'set': lambda: w_set(base), 'trim': lambda: w_trim(base), 'load': lambda: w_load(base, path)}[name]()
+            'set': lambda: w_set(base), 'trim': lambda: w_trim(base), 'load': lambda: w_load(base, path),
+            'failiter': lambda: w_failiter(base)}[name]()
 
 
 COARSE = [('pycel.excelcompiler', 'ExcelCompiler', ['_evaluate', '_evaluate_range'])]
@@ -165,7 +183,7 @@ def strip_ids(result, base):
 
 def reference(name, path):
     plugins.reset()
-    r = make(name, 0, path)()
+    r = make(REF_OF.get(name, name), 0, path)()
     return strip_ids(r, 0)
 
 
@@ -192,11 +210,11 @@ def work(job):
             s = sched.Sched(prefix)
             holder[0] = s
             f0, f1 = make(n0, 100, path), make(n1, 200, path)
-            if warm:
+            if warm is True:
                 g0, g1 = f0, f1
                 f0 = lambda: (warm_up(), g0())[1]     # noqa: E731
                 f1 = lambda: (warm_up(), g1())[1]     # noqa: E731
-            s.out = s.run(f0, f1)
+            s.out = s.run(f0, f1, copy_context=(warm == 'ctx'))
             holder[0] = None
             return s
 
@@ -246,6 +264,9 @@ def run(ctx):
     pairs = pairs[k:] + pairs[:k]
     hot = ('iterA', 'iterB', 'arr22', 'arr31')
     for n0, n1 in pairs:
+        if n0 in hot and n1 in hot:
+            # threads started inside a copy of the (library-using) main thread's contextvars context
+            jobs.append((n0, n1, 'ctx', 2 if ctx.thorough else 1, False, None))
         for warm in (False, True):
             if ctx.thorough:
                 jobs.append((n0, n1, warm, 2, False, None))
@@ -285,12 +306,12 @@ def replay(case):
         s = sched.Sched(case['schedule'])
         holder[0] = s
         f0, f1 = make(n0, 100, path), make(n1, 200, path)
-        if case['warm']:
+        if case['warm'] is True:
             g0, g1 = f0, f1
             f0 = lambda: (warm_up(), g0())[1]     # noqa: E731
             f1 = lambda: (warm_up(), g1())[1]     # noqa: E731
         with patched(holder, FINE if case.get('fine') else COARSE):
-            out = s.run(f0, f1)
+            out = s.run(f0, f1, copy_context=(case['warm'] == 'ctx'))
         holder[0] = None
         lines = [f"pair {case['pair']} warm={case['warm']} schedule {case['schedule']} ({s.k} points)"]
         bad = False
